@@ -3,8 +3,10 @@
 import os, re, json, glob, sys
 ROOT='/verif/seeded'
 rows=[]
+ONLY=set(sys.argv[1:])  # optional: only these ids (earlier rounds' logs / replays may be gone)
 for d in sorted(glob.glob(ROOT+'/C*-*')):
     sid=os.path.basename(d); pid,var=sid.split('-')
+    if ONLY and sid not in ONLY: continue
     notes=open(d+'/notes.md').read() if os.path.exists(d+'/notes.md') else ''
     meta=dict(id=sid, breaks_property=pid, origin='independent sub-agent given only the property text and a scratch worktree of /repo',
               needs_to_manifest=' '.join(notes.split('\n\n')[1:3])[:900] if notes else '',
